@@ -55,6 +55,7 @@ static void adfFreeTmpVolList ( struct AdfList * const root )
         vol = (struct AdfVolume *) cell->content;
         if (vol->volName!=NULL)
             free(vol->volName);  
+        free(vol);
         cell = cell->next;
     }
     freeList(root);
@@ -156,17 +157,26 @@ RETCODE adfMountHd ( struct AdfDevice * const dev )
     next = rdsk.partitionList;
     dev->nVol=0;
     vList = NULL;
+    /* (the three lists below live in the RDB area: none is longer than ADF_MAX_RDB_LIST
+       blocks, which also ends a cyclic list) */
+#define ADF_MAX_RDB_LIST 512
+    int listLen = 0;
     while( next!=-1 ) {
+        if ( ++listLen > ADF_MAX_RDB_LIST ) {
+            adfFreeTmpVolList(listRoot); dev->nVol = 0;
+            (*adfEnv.eFct)("adfMountHd : partition list too long");
+            return RC_ERROR;
+        }
         rc = adfReadPARTblock ( dev, next, &part );
         if ( rc != RC_OK ) {
-            adfFreeTmpVolList(listRoot);
+            adfFreeTmpVolList(listRoot); dev->nVol = 0;
             (*adfEnv.eFct)("adfMountHd : malloc");
             return rc;
         }
 
         vol = (struct AdfVolume *) malloc (sizeof(struct AdfVolume));
         if ( vol == NULL ) {
-            adfFreeTmpVolList(listRoot);
+            adfFreeTmpVolList(listRoot); dev->nVol = 0;
             (*adfEnv.eFct)("adfMountHd : malloc");
             return RC_MALLOC;
         }
@@ -178,10 +188,10 @@ RETCODE adfMountHd ( struct AdfDevice * const dev )
         vol->rootBlock = (vol->lastBlock - vol->firstBlock+1)/2;
         vol->blockSize = part.blockSize*4;
 
-        len = (unsigned) min ( 31, part.nameLen );
+        len = (unsigned) min ( 31, (int) (unsigned char) part.nameLen );   /* (nameLen is a plain char) */
         vol->volName = (char*)malloc(len+1);
         if ( vol->volName == NULL ) { 
-            adfFreeTmpVolList(listRoot);
+            adfFreeTmpVolList(listRoot); dev->nVol = 0;
             free ( vol );
             (*adfEnv.eFct)("adfMount : malloc");
             return RC_MALLOC;
@@ -198,7 +208,7 @@ RETCODE adfMountHd ( struct AdfDevice * const dev )
             vList = newCell(vList, (void*)vol);
 
         if (vList==NULL) {
-            adfFreeTmpVolList(listRoot);
+            adfFreeTmpVolList(listRoot); dev->nVol = 0;
             (*adfEnv.eFct)("adfMount : newCell() malloc");
             return RC_MALLOC;
         }
@@ -210,7 +220,7 @@ RETCODE adfMountHd ( struct AdfDevice * const dev )
     dev->volList = (struct AdfVolume **) malloc (
         sizeof(struct AdfVolume *) * (unsigned) dev->nVol );
     if ( dev->volList == NULL ) {
-        adfFreeTmpVolList(listRoot);
+        adfFreeTmpVolList(listRoot); dev->nVol = 0;
         (*adfEnv.eFct)("adfMount : malloc");
         return RC_MALLOC;
     }
@@ -222,12 +232,26 @@ RETCODE adfMountHd ( struct AdfDevice * const dev )
     freeList(listRoot);
 
     next = rdsk.fileSysHdrList;
+    fshd.segListBlock = -1;     /* (no FSHD block: no LSEG list) */
+    listLen = 0;
     while( next!=-1 ) {
+        if ( ++listLen > ADF_MAX_RDB_LIST ) {
+            for ( i = 0 ; i < dev->nVol ; i++ ) {
+                free ( dev->volList[i]->volName );
+                free ( dev->volList[i] );
+            }
+            free(dev->volList);
+            dev->volList = NULL; dev->nVol = 0;
+            return RC_ERROR;
+        }
         rc = adfReadFSHDblock ( dev, next, &fshd ); 
         if ( rc != RC_OK ) {
-            for ( i = 0 ; i < dev->nVol ; i++ )
+            for ( i = 0 ; i < dev->nVol ; i++ ) {
+                free ( dev->volList[i]->volName );
                 free ( dev->volList[i] );
+            }
             free(dev->volList);
+            dev->volList = NULL; dev->nVol = 0;   /* (adfCloseDev must not free them again) */
             (*adfEnv.eFct)("adfMount : adfReadFSHDblock");
             return rc;
         }
@@ -235,11 +259,12 @@ RETCODE adfMountHd ( struct AdfDevice * const dev )
     }
 
     next = fshd.segListBlock;
-    while( next!=-1 ) {
+    listLen = 0;
+    while( next!=-1 && ++listLen <= ADF_MAX_RDB_LIST ) {
         rc = adfReadLSEGblock ( dev, next, &lseg ); 
         if ( rc != RC_OK ) {
             (*adfEnv.wFct)("adfMount : adfReadLSEGblock");
-            // abort here ?
+            break;      /* (lseg.next was not read) */
         }
         next = lseg.next;
     }
